@@ -28,6 +28,7 @@ CONSTANTS N,        \* input length
           SubFrameFixed  \* FALSE: delay.rs as it is (an empty buffer for a delay shorter than one frame, `chunks_mut(0)`
                          \* panics); TRUE: a repaired source that uses a buffer of one frame in that case
 
+SignedVals == {-1, 0, 1}        \* for `Vals <- SignedVals` (a cfg file cannot spell negative numbers)
 RECURSIVE Pow2(_)
 Pow2(k) == IF k = 0 THEN 1 ELSE 2 * Pow2(k - 1)
 CodedInputs == { [i \in 1..N |-> Pow2(i - 1)],                          \* every sample its own bit: sums identify their terms
